@@ -513,6 +513,62 @@ def formulas(ctx, mod):
                   'normalisation of Gamma differs: %s ; clamp %s' % (unparse(divs[0]), [unparse(c) for c in clamp]), mod.loc(divs[0]))
 
 
+def chain_geometry(ctx, mod):
+    """the lag arithmetic of the estimator lives on the grid of the common spacing: replica lengths, expansion and gaps are typed
+    by the ABS/DIFF/COUNT system of C03 (shared analysis), and the unexpanded shortcut of _expand_deltas is taken only for a range
+    whose step is the common spacing"""
+    from . import C03
+    C03.d4_units(ctx, mod, 'C02-D3')
+    f = mod.func('_expand_deltas')
+    p = [a.arg for a in f.args.args]
+    rets = [s_ for s_ in statements(f) if isinstance(s_, ast.Return) and unparse(s_.value) == p[0]]
+    for r in rets:
+        g = [unparse(t) for t, pol in guards_of(mod, r, stop=f) if pol]
+        ok = any('isinstance(%s, range)' % p[1] in x or 'type(%s) is range' % p[1] in x for x in g) and any(x.replace('(', '').replace(')', '') in ('%s.step == %s' % (p[1], p[3]), '%s == %s.step' % (p[3], p[1])) for x in g)
+        ctx.check('C02-D3', 'obs.py:_expand_deltas#unexpanded-shortcut', ok, 'fluctuations are returned unexpanded only for a range with step == gapsize',
+                  'the fluctuations are returned without zero filling under %s: a range with a larger step than the common spacing is not expanded and lag t pairs the wrong configurations' % g, mod.loc(r))
+    ctx.floor('unexpanded shortcuts of _expand_deltas', len(rets), 1)
+    # length of a replica in units of the common spacing: an irregular chain from `first` to `last` occupies (last-first)/g + 1 grid
+    # points, a range of L entries with step s occupies L*s/g (the convention of the estimator for the largest lag)
+    gm = mod.func('Obs.gamma_method')
+    A, B, G, L, S = sp.symbols('first last gap length step', positive=True)
+    aps = [c for c in walk(gm) if isinstance(c, ast.Call) and isinstance(c.func, ast.Attribute) and c.func.attr == 'append' and unparse(c.func.value) == 'r_length' and len(c.args) == 1]
+
+    def tr(e):
+        t = unparse(e)
+        if t == 'gapsize':
+            return G
+        if isinstance(e, ast.Constant) and isinstance(e.value, int):
+            return sp.Integer(e.value)
+        if isinstance(e, ast.Subscript) and t.startswith('self.idl[') and const(e.slice) is not None:
+            if const(e.slice) == 0:
+                return A
+            if const(e.slice) == -1:
+                return B
+        if isinstance(e, ast.Subscript) and isinstance(e.slice, ast.UnaryOp) and isinstance(e.slice.op, ast.USub) and const(e.slice.operand) == 1 and t.startswith('self.idl['):
+            return B
+        if isinstance(e, ast.Call) and call_name(e) == 'len' and unparse(e.args[0]).startswith('self.idl['):
+            return L
+        if isinstance(e, ast.Attribute) and e.attr == 'step' and unparse(e.value).startswith('self.idl['):
+            return S
+        if isinstance(e, ast.BinOp) and isinstance(e.op, (ast.Add, ast.Sub, ast.Mult, ast.FloorDiv, ast.Div)):
+            x, y = tr(e.left), tr(e.right)
+            return {ast.Add: lambda: x + y, ast.Sub: lambda: x - y, ast.Mult: lambda: x * y, ast.FloorDiv: lambda: x / y, ast.Div: lambda: x / y}[type(e.op)]()
+        raise Unrecognised('cannot translate %s' % t)
+    for c in aps:
+        g = [unparse(t) for t, pol in guards_of(mod, c, stop=gm) if 'range' in unparse(t)]
+        is_range = any(pol for t, pol in guards_of(mod, c, stop=gm) if 'range' in unparse(t))
+        key = 'obs.py:Obs.gamma_method#replica-length[%s]' % ('range' if is_range else 'list')
+        try:
+            got = tr(c.args[0])
+        except Unrecognised as e_:
+            ctx.unrec('C02-D3', key, str(e_), mod.loc(c))
+            continue
+        want = L * S / G if is_range else (B - A) / G + 1
+        ctx.check('C02-D3', key, sp.simplify(got - want) == 0, 'replica length in gap units = %s' % want, 'replica length is %s, the chain occupies %s grid points' % (got, want), mod.loc(c))
+    ctx.floor('replica length expressions', len(aps), 2)
+
+
 def compute_drho(ctx, mod):
     """Bounded-exhaustive decision of the slice arithmetic of _compute_drho: for every (w_max, i) on a grid the three slices must
     pick rho(k+i), rho(|k-i|) and rho(k) for k = 1 .. w_max-i-1 (Wolff eq. (E.11)); only the extracted index expressions are
@@ -647,8 +703,7 @@ def paired_calc_gamma(ctx, mod):
         ctx.check(rule, key + '-sum[%s]' % nm, ok, 'summed over replicas', 'not summed over replicas: %s' % unparse(st)[:90], mod.loc(st))
 
 
-def calc_gamma(ctx, mod):
-    rule = 'C02-D4'
+def calc_gamma(ctx, mod, rule='C02-D4'):
     f = mod.func('Obs._calc_gamma')
     params = [a.arg for a in f.args.args]
     sts = statements(f)
@@ -682,6 +737,17 @@ def calc_gamma(ctx, mod):
                 return sp.Mod(a, b)
         if isinstance(node, ast.Call) and call_name(node) == 'min' and len(node.args) == 2:
             return sp.Min(T(node.args[0]), T(node.args[1]))
+        if isinstance(node, ast.Call) and call_name(node) == 'len' and len(node.args) == 1 and isinstance(node.args[0], ast.Name):
+            d = loc.get(node.args[0].id, [])
+            if len(d) == 1 and isinstance(d[0].value, ast.Call) and (mod.dotted(d[0].value.func) or '') == 'numpy.fft.irfft':
+                c_ = d[0].value
+                if len(c_.args) >= 2:
+                    return T(c_.args[1])
+                inner_ = [x for x in ast.walk(c_.args[0]) if isinstance(x, ast.Call) and (mod.dotted(x.func) or '') == 'numpy.fft.rfft']
+                if inner_ and len(inner_[0].args) >= 2:
+                    return T(inner_[0].args[1])      # irfft of an rfft of even length n has length n
+            if len(d) == 1 and node.args[0].id == 'deltas':
+                return ns
         raise Unrecognised(unparse(node))
     # fft path
     key = 'obs.py:Obs._calc_gamma#fft-padding'
@@ -697,6 +763,16 @@ def calc_gamma(ctx, mod):
             while not isinstance(stmt, ast.stmt):
                 stmt = mod.parents[stmt]
             sub = mod.parents.get(irfft[0])
+            if isinstance(sub, ast.Assign) and len(sub.targets) == 1 and isinstance(sub.targets[0], ast.Name):
+                # the transform is stored first: find the slice of that name that is added to gamma
+                vname = sub.targets[0].id
+                uses = [x for x in walk(f) if isinstance(x, ast.Subscript) and isinstance(x.value, ast.Name) and x.value.id == vname and isinstance(x.slice, ast.Slice)]
+                if len(uses) != 1:
+                    raise Unrecognised('stored irfft result %s is not sliced exactly once' % vname)
+                sub = uses[0]
+                stmt = sub
+                while not isinstance(stmt, ast.stmt):
+                    stmt = mod.parents[stmt]
             if not (isinstance(sub, ast.Subscript) and isinstance(sub.slice, ast.Slice) and sub.slice.lower is None):
                 raise Unrecognised('irfft result is not sliced [:max]')
             mg = T(sub.slice.upper)
@@ -829,6 +905,7 @@ def run(ctx):
     obs = ctx.repo.mod('obs')
     ctx.guarded('C02-D1', 'obs.py:Obs.gamma_method@formulas', formulas, ctx, obs)
     ctx.guarded('C02-D3', 'obs.py:Obs.gamma_method@pair', paired_calc_gamma, ctx, obs)
+    ctx.guarded('C02-D3', 'obs.py@chain-geometry', chain_geometry, ctx, obs)
     ctx.guarded('C02-D4', 'obs.py:Obs._calc_gamma', calc_gamma, ctx, obs)
     ctx.rule('C02-D5', 'error of rho: slice arithmetic of _compute_drho (bounded exhaustive, w_max <= 14)')
     ctx.guarded('C02-D5', 'obs.py:_compute_drho', compute_drho, ctx, obs)
@@ -841,6 +918,8 @@ def run(ctx):
 
 _STD = "self.e_tauint[e_name] = self.e_n_tauint[e_name][n] * (1 + (2 * n + 1) / e_N) / (1 + 1 / e_N)  # Bias correction"
 SELFTEST = [
+    ('list-replica-length-off-by-one', 'pyerrors/obs.py', "r_length.append((self.idl[r_name][-1] - self.idl[r_name][0] + gapsize) // gapsize)", "r_length.append((self.idl[r_name][-1] - self.idl[r_name][0]) // gapsize)", 'C02-D3'),
+    ('expand-shortcut-any-range', 'pyerrors/obs.py', "    if isinstance(idx, range):\n        if (idx.step == gapsize):\n            return deltas", "    if isinstance(idx, range):\n        return deltas", 'C02-D3'),
     ('benign-pair-count-half', 'pyerrors/obs.py', "gamma_div[gamma_div < 1] = 1.0", "gamma_div[gamma_div < 0.5] = 1.0", 'BENIGN'),
     ('tail-fallback-lag', 'pyerrors/obs.py', "or n >= w_max // 2 - 2:", "or n >= w_max // 2 - 1:", 'C02-D2'),
     ('benign-tail-fallback-gt', 'pyerrors/obs.py', "or n >= w_max // 2 - 2:", "or n > w_max // 2 - 3:", 'BENIGN'),
